@@ -18,9 +18,16 @@ import (
 
 // verifAntsSubmit replaces the worker pool in the symbolic build: the task runs inline.
 func verifAntsSubmit(p *ants.Pool, task func()) error {
+	if verifAsyncWorkers {
+		go task()
+		return nil
+	}
 	task()
 	return nil
 }
+
+// verifAsyncWorkers makes the worker-pool stub run every task as a thread of its own.
+var verifAsyncWorkers bool
 
 // verifRecorder is a handler that records what the server decoded.
 type verifRecorder struct {
